@@ -1100,6 +1100,11 @@ impl World {
         }
     }
 
+    /// the task that was sent ahead has gone through (its report is waiting to be consumed by its own step)
+    pub fn early_ready(&self, t: usize) -> bool {
+        self.early[t] && self.pending_rep[t].is_some()
+    }
+
     /// wait until the task that was sent ahead has gone through (its report is kept for its own step)
     pub fn await_early(&mut self, t: usize) {
         if self.early[t] && self.pending_rep[t].is_none() {
